@@ -541,6 +541,11 @@ func (r *Reader) ReadMessage(codec Codec) (messageInstance any, err error) {
 		return nil, err
 	}
 
+	if messageName == "" && len(messageData) == 0 {
+		// WriteMessage 对空消息的表示
+		return nil, nil
+	}
+
 	if messageDesc := QueryMessageDescByName(messageName); !messageDesc.IsOutside() {
 		// 内部消息反序列化
 		internalReader := NewReaderFromPool(messageData)
@@ -551,6 +556,9 @@ func (r *Reader) ReadMessage(codec Codec) (messageInstance any, err error) {
 		}
 	} else {
 		// 外部消息反序列化
+		if codec == nil {
+			return nil, fmt.Errorf("no codec configured for external message %q", messageName)
+		}
 		messageInstance, err = codec.Decode(messageData)
 		if err != nil {
 			return
